@@ -6,6 +6,7 @@ import (
 	"errors"
 	"fmt"
 	"io"
+	"runtime"
 	"strconv"
 	"strings"
 	"time"
@@ -119,15 +120,31 @@ func parseOnce(env *interp.ExecEnv, src string, kind string, failAt int) (res pa
 		}
 		done <- r
 	}()
-	select {
-	case r := <-done:
-		return r, "ok"
-	case p := <-pan:
-		return parseResult{}, "PANIC:" + hx(p)
-	case <-time.After(3 * time.Second):
-		return parseResult{}, "HANG"
+	deadline := time.After(3 * time.Second)
+	tick := time.NewTicker(50 * time.Millisecond)
+	defer tick.Stop()
+	for {
+		select {
+		case r := <-done:
+			return r, "ok"
+		case p := <-pan:
+			return parseResult{}, "PANIC:" + hx(p)
+		case <-deadline:
+			mustRestart = true
+			return parseResult{}, "HANG"
+		case <-tick.C:
+			// a parse that keeps spawning goroutines is cut off before it exhausts the machine
+			if runtime.NumGoroutine() > 20000 {
+				mustRestart = true
+				return parseResult{}, "HANG:runaway-goroutines"
+			}
+		}
 	}
 }
+
+// mustRestart: a call was abandoned while still running; the worker stops after reporting it
+// (exit status 3) and the runner resumes with the remaining cases in a fresh process.
+var mustRestart bool
 
 func fmtErr(err error) string {
 	if err == nil {
